@@ -39,6 +39,7 @@ type structDecoder struct {
 	keyStreamDecoder   func(*structDecoder, *Stream) (*structFieldSet, string, error)
 	foldFieldMap       map[string]*structFieldSet // lower-cased name to the first field of that name
 	ambiguousFields    []*structFieldSet          // fields dropped because their name is ambiguous: they still hide deeper fields of a struct that embeds this one
+	orderedFields      []*structFieldSet          // the fields in the order of their declaration ( a map has no order: the first field that matches a key case-insensitively is the first of these )
 }
 
 // lookupField returns the field an object key selects: the field of exactly
